@@ -116,12 +116,17 @@ class BuildError(Exception):
     pass
 
 
-def _prune(d, keep, max_files):
+def _prune(d, keep, max_files, min_age_s=3600):
+    """drop the oldest cache entries beyond max_files, but never one younger than min_age_s
+    (another check running concurrently may still be using it)"""
+    now = time.time()
     files = sorted(glob.glob(os.path.join(d, "*")), key=os.path.getmtime)
     extra = [f for f in files if f not in keep]
     while len(extra) + len(keep) > max_files and extra:
         f = extra.pop(0)
         try:
+            if now - os.path.getmtime(f) < min_age_s:
+                break
             os.remove(f)
         except OSError:
             pass
@@ -359,7 +364,8 @@ def build_model_oracle(timeout=900):
     for f in glob.glob(os.path.join(bindir, "model_oracle-*")):
         if f != binp:
             try:
-                os.remove(f)
+                if time.time() - os.path.getmtime(f) > 3600:
+                    os.remove(f)
             except OSError:
                 pass
     return binp
